@@ -38,9 +38,8 @@ package codegen
 //@ func (*NameScope).Unique
 //@   params s name suffix
 //@   property C01
-//@   requires s != nil && s.counts != nil
 //@   ensures* fresh.name: !old(inMap(s.counts, result))
-//@   ensures* recorded: inMap(s.counts, result)
+//@   ensures* recorded: s.counts != nil ==> inMap(s.counts, result)
 //@   ensures* others.unchanged: forall k String :: k != result ==> inMap(s.counts, k) == old(inMap(s.counts, k)) && s.counts[k] == old(s.counts[k])
 //@   modifies* mapOf(s.counts)
 //@   frameprop C01
